@@ -345,6 +345,19 @@ pub fn wrap_first_fit<'a, T: Fragment>(fragments: &'a [T], line_widths: &[f64]) 
             .get(lines.len())
             .copied()
             .unwrap_or(default_line_width);
+        #[cfg(feature = "verif-hooks")]
+        crate::verif::emit(
+            "first_fit.step",
+            &[
+                crate::verif::n(idx),
+                crate::verif::f(line_width),
+                crate::verif::f(width),
+                i64::from(
+                    width + fragment.width() + fragment.penalty_width() > line_width && idx > start,
+                ),
+                crate::verif::n(lines.len()),
+            ],
+        );
         if width + fragment.width() + fragment.penalty_width() > line_width && idx > start {
             lines.push(&fragments[start..idx]);
             start = idx;
